@@ -49,7 +49,7 @@ CHECKS.update({
          "DESIGN.md §5 C08"),
  "C09": ("proptest macro programs; differential tool(with macros) vs tool(hand-expanded by AST substitution) vs reference model",
          "80k (quick) / 1M (thorough) programs (plus deterministic many-call legs): 1-4 macros with 0-10 typed parameters (register, pointer form, Y/Z+q, whole expression, embedded atom, byte, condition, label number), bodies with instructions/data over @n, .if @n/.else, nested calls passing @n and expressions over @n, .dseg/.eseg excursions (also as last lines), parameterised labels; 1-6 calls in other letter case, before and after the definition, with generated expression arguments. The generator expands calls itself on the AST; build(program with macros) must equal build(hand-expanded program) and the model image. Undefined macro / missing used argument must fail.",
-         "Embedded positions (`@0*2`) only receive atoms, function calls or parenthesised arguments so that textual and value substitution agree (the statement does not choose); no .message inside macro bodies (their position in the message list is unspecified).",
+         "Embedded positions (`@0*2`) only receive atoms, function calls or parenthesised arguments so that textual and value substitution agree (the statement does not choose); .message/.warning lines stand in bodies and between calls since the order of messages was repaired (1a87953): the list must be in the order of assembly.",
          "DESIGN.md §5 C09"),
  "C10": ("proptest define/use histories over all four symbol kinds against the reference binding model, single-fault must-fail variants, alias->register metamorphic relation",
          "120k (quick) / 1.5M (thorough) programs of 2-9 symbols (code/data/EEPROM labels, .equ incl. references to other symbols, .set with sequential reassignments, .def/.undef/re-.def) and 4-27 define/use steps in generated order, each occurrence of a name in its own letter case. Image must equal the model's binding; variants with one fault (definition deleted, duplicate label, alias out of scope, .set used before assignment) must fail; replacing alias uses by the register must not change the image.",
